@@ -19,6 +19,7 @@ from __future__ import annotations
 
 import ast
 import itertools
+import zlib
 import re
 import signal
 
@@ -182,6 +183,15 @@ def gen(tier, rng, shard, nshards):
             yield "rt", "rt " + C.hx(bs)
     for _ in range((24000 if thorough else 3000) // nshards):
         yield "rt", "rt " + C.hx(_rand_bytes(rng, 40))
+    # long literals (text of 4 k .. 100 k characters): escapes of every width landing on every offset around 4096 / 8192 / 65536
+    for n in ([1000, 4089, 4090, 4093, 4095, 4096, 4097, 8190, 8192, 16384, 30000] if thorough else [4090, 4094, 4096, 8191, 12000]):
+        for rep in range(16 if thorough else 10):
+            if not mine():
+                continue
+            pool = [b"A", b"\\", b'"', b"\n", b"\x00", b"\xff", b"n", b"x", b"'", b"\\\\"]
+            body = b"".join(rng.choice(pool) if rng.random() < 0.5 else b"A" for _ in range(n // 2))
+            body = (b"A" * rng.randrange(0, 8) + body)[:n]
+            yield "rt", "rt " + C.hx(body)
 
     # ---- tok: literal followed by arbitrary text
     for bs in _words(SYNTAX, 3 if thorough else 2):
@@ -338,6 +348,9 @@ def _impl(stream, line):
     w = line.split(" ")
     if stream == "rt":
         bs = C.unhx(w[1])
+        if zlib.crc32(line.encode()) % 2 == 0:
+            # history prefix: the same characters converted as a `str` first (its result must not influence the bytes conversion)
+            cp.value_to_string(_l1(bs))
         text = cp.value_to_string(bs)
         return f"{_hx(text)} {_decode_tok(text)} {_scan(text)}"
     if stream == "tok":
